@@ -7,7 +7,7 @@ _SLICES_T = [(h, m, f, c * 60) for (h, m, f, c) in _SLICES_Q]
 
 PROP = dict(
     level="other",
-    lean_modules=["PopsModel.Props.C20"],
+    lean_modules=["PopsModel.Props.C20", "PopsModel.Props.NonVacuous.Calendar"],
     theorems=["Pops.C20_err_names", "Pops.C20_err_frequency", "Pops.C20_err_date_outside", "Pops.C20_err_cohort_length",
               "Pops.C20_err_missing", "Pops.C20_err_probabilities", "Pops.C12_weather_range", "Pops.C12_weather_degenerate", "Pops.C20_index_in_range",
               "Pops.C20_outside_untouched"],
